@@ -106,7 +106,7 @@ Definition char_readable (r : N) : bool :=
             else true
   end.
 
-Definition pipe_ok_byte (b : byte) : bool :=       (* bytes a |name| may hold *)
+Definition pipe_ok_byte (b : byte) : bool :=       (* bytes a |name| holds as they are; the others are escaped *)
   negb (b =? 124)%N && negb (b =? 92)%N && ((32 <=? b)%N || (b =? 9)%N || (b =? 10)%N || (b =? 13)%N).
 Definition token_byte (b : byte) : bool :=          (* bytes the reader keeps inside a token *)
   match act T03 MToken b with ASkip | ATokenStart => true | _ => false end.
@@ -119,13 +119,14 @@ Definition bare_ok (name : list byte) : bool :=      (* a name printed without |
   end && negb (is_t name) && negb (is_nil_tok name) && negb (bytes_eqb name [46%N]).
 (* A name that looks like a number is no longer a guard matter: Symbol.needPipes matches the name against the
    reader's number patterns and puts such names between bars (repo_fixes C03-3); the pretty printer writes
-   symbols inside lists as it writes them elsewhere (repo_fixes C03-4). *)
+   symbols inside lists as it writes them elsewhere (repo_fixes C03-4); between bars | \ and control bytes are
+   escaped (repo_fixes C03-5), so every ASCII name that gets bars is inside the guard. *)
 Definition sym_ok (c : pcfg) (name : list byte) : bool :=
   forallb (fun b => (b <? 128)%N) name &&
   match name with
   | [] => true
   | 58%N :: _ => negb (existsb need_pipe name) && bare_ok name
-  | _ => if need_pipes name then forallb pipe_ok_byte name else bare_ok name
+  | _ => if need_pipes name then true else bare_ok name
   end.
 
 Definition float_ok (k : fkind) (txt : list byte) : bool :=
